@@ -1,6 +1,7 @@
 import Ntrip.Model.Bits
 import Ntrip.Model.SegmentT
 import Ntrip.Model.Classify
+import Ntrip.Model.Msm
 /-! Operations of the line protocol.  Every branch that rejects input answers `bad-op`
     (never a default value). -/
 namespace Driver
@@ -68,7 +69,33 @@ def parseHexes : List String → Option (List Bytes)
     | some b, some bs => some (b :: bs)
     | _, _ => none
 
+def joinWith (sep : String) (xs : List String) : String := sep.intercalate xs
+
+def showBoolRow (r : List Bool) : String := String.ofList (r.map (fun b => if b then 't' else 'f'))
+
+def showHdr (h : MsmHeader) : String :=
+  s!"hdr={h.typ},{h.station},{h.ts},{h.multiple},{h.iods},{h.sessionTime},{h.clockSteering},{h.externalClock},{h.smoothing},{h.smoothingInterval},{h.satMask},{h.sigMask},{h.cellMask},{h.numCells}" ++
+  s!" sats={joinWith "," (h.sats.map toString)} sigs={joinWith "," (h.sigs.map toString)} cells={joinWith "/" (h.cells.map showBoolRow)}"
+
+def showMsm (m : MsmMsg) : String :=
+  let sats := (m.hdr.sats.zip m.sats).map (fun (id, vs) => s!" sat={id}:" ++ joinWith ":" (vs.map toString))
+  let sigs := m.sigs.flatten.map (fun c => s!" sig={c.satIdx}:{c.satId}:{c.sigId}:" ++ joinWith ":" (c.vals.map toString))
+  "ok " ++ showHdr m.hdr ++ String.join sats ++ s!" nsigrows={m.sigs.length}" ++ String.join sigs
+
+def showMsmRes : Res MsmMsg → String
+  | .ok m => showMsm m
+  | .err e => "err " ++ e.toString
+  | .panic => "panic"
+
 def handle : List String → String
+  | "msm4" :: h :: _ =>
+    match parseHex h with
+    | some b => showMsmRes (decodeMsm .msm4 b)
+    | none => "bad-op"
+  | "msm7" :: h :: _ =>
+    match parseHex h with
+    | some b => showMsmRes (decodeMsm .msm7 b)
+    | none => "bad-op"
   | ["classify", t] =>
     match t.toInt? with
     | some typ =>
